@@ -155,8 +155,17 @@ class Task:
         if isinstance(obj, (int, float)): obj = cp.Constant(obj)
         mx = self.sense == objsense.maximize
         prob = cp.Problem(cp.Maximize(obj) if mx else cp.Minimize(obj), cons)
-        prob.solve(solver='CLARABEL')
-        self.status = prob.status
+        try:
+            prob.solve(solver='CLARABEL')
+            self.status = prob.status
+        except cp.error.SolverError:
+            # CLARABEL gives up on some infeasible problems: a second solver may still certify infeasibility /
+            # unboundedness; any other outcome of the retry is reported as inaccurate (the driver then does not judge)
+            try:
+                prob.solve(solver='SCS', eps=1e-8, max_iters=20000)
+                self.status = prob.status if prob.status in ('infeasible', 'unbounded') else 'optimal_inaccurate'
+            except cp.error.SolverError:
+                raise
         if prob.status not in ('optimal', 'optimal_inaccurate'):
             self.sol = None; return
         sgn = 1.0 if mx else -1.0       # y defined through  c - A^T y (+..) = 0 in both senses
